@@ -21,7 +21,7 @@ from props import _hlg_optbw as OB
 PROP = "C10"
 READY = True
 DRIVER = "dm_hlg"
-LEAN_MODULES = ["DaskModel.Props.C10"]
+LEAN_MODULES = ["DaskModel.Props.C10", "DaskModel.Props.C10xOptBW"]
 TABLES = ["FuseRules"]
 CASE_TIMEOUT_S = 60   # the first case of a run also pays the import of dask.array (slow on a loaded machine)
 LEVEL_TEXT = ("Lean 4 theorems over a transliteration of dask/blockwise.py's coordinate logic, HighLevelGraph.cull and "
@@ -38,7 +38,13 @@ LEVEL_TEXT = ("Lean 4 theorems over a transliteration of dask/blockwise.py's coo
               "of all fused producers are pairwise distinct: sibling contraction layers never share a contracted index), "
               "`rewrite_coord_sound` (+`_contracted`: per index, the coordinate the fused layer hands an input of a fused "
               "producer equals the coordinate the producer would use for the block the consumer reads, under numblocks "
-              "consistency). "
+              "consistency), and over a model of the DRIVER loop `_optimize_blockwise` (stack walk over layer dependencies, "
+              "the worklist that gathers producers, its six guards): `fusion_group_sound` (every layer fused into a group "
+              "is a Blockwise layer, is not a requested output, and all its dependents lie inside the group), "
+              "`all_layers_grouped` / `optimize_blockwise_keeps_outputs` (on a topologically numbered graph every layer "
+              "lands in some group and every requested layer name is the root of one, i.e. survives), for the runs on "
+              "which the fuelled model terminates; the groups of EVERY real pass (wrapped `rewrite_blockwise`) and the "
+              "layers `fuse_roots` merges are diffed against the model on generated layer DAGs. "
               "Fusion VALUES (`rewrite_blockwise`/`optimize_blockwise`) are validated, not proved: the fused index table of "
               "every rewrite_blockwise call is diffed against the model, fused and unfused graphs are evaluated on random "
               "stacks (incl. a stream of consumers of sibling contraction producers with unequal block counts, diamonds) and "
@@ -47,13 +53,18 @@ LEVEL_NOTE = ("Trusted: Lean kernel + standard axioms; the hand-written model, t
               "(_get_coord_mapping, _cull_dependencies, _make_blockwise_graph, broadcast_dimensions, _lol_product, "
               "_fuse_annotations, HighLevelGraph.cull) and by the AST extractor for the annotation rule table; NumPy and "
               "the synchronous scheduler as oracles. Python set iteration order is modelled as an arbitrary enumeration. "
-              "Not modelled: fuse_roots, the fusion choice of optimize_blockwise, BlockwiseDep.produces_keys.")
+              "The grouping loop is modelled with one fixed traversal order (Python: set order) and fuel; that the result "
+              "does not depend on the order, and that the fuel suffices, are validated by the diff, not proved. "
+              "`fuse_roots`: the merge condition is modelled and diffed, no theorem. Not modelled: the `dependencies` dict "
+              "`_optimize_blockwise` returns, BlockwiseDep.produces_keys.")
 TECHNIQUE = "Lean 4 proof (induction over index strings / layer lists; extracted rule table) + differential correspondence + NumPy oracle"
 ASSUMPTIONS = [
     "index symbols and collection names are compared only by equality (interned to Nat)",
     "iteration order of a Python set is an arbitrary duplicate-free enumeration (theorems quantify over it)",
     "tasks inside a materialized layer are listed dependents-first for the model (the real worklist computes the same set)",
     "annotation values are well typed (ints, dict of ints, collections of worker names, bools)",
+    "layer names are numbered topologically for the grouping model (dependencies first; names that are not layers get numbers "
+    "beyond the layer list); the hypotheses `topoOK`/`selfOK` of the coverage theorems are evaluated on every real graph",
 ]
 TRUSTED = ["dask.local.get_sync as evaluator of materialised graphs", "NumPy as reference for array values"]
 
